@@ -1542,7 +1542,29 @@ COVER = {
     "time_units": set(),
     "sequence_length": set(),
     "index": None,  # never considered
+    # the same DECODED value / parsed schema in another spelling (whitespace, key order): equals() is documented on the
+    # stored bytes, so these are differences like any other - and assert_equals(), which looks at decoded values first,
+    # must still agree with equals() under every flag set
+    "ts_metadata_respelled": {"ignore_metadata", "ignore_ts_metadata"},
+    "ts_schema_respelled": {"ignore_metadata", "ignore_ts_metadata"},
+    "refseq_metadata_respelled": {"ignore_reference_sequence", "ignore_metadata"},
+    "refseq_schema_respelled": {"ignore_reference_sequence", "ignore_metadata"},
+    "table_schema_respelled": {"ignore_metadata", "ignore_tables"},
 }
+
+
+def respell_json(text):
+    """Another spelling of the same JSON document (keys reversed, indented); None when it would be identical."""
+    try:
+        d = json.loads(text)
+    except ValueError:
+        return None
+    if isinstance(d, dict):
+        d = dict(reversed(list(d.items())))
+    out = json.dumps(d, indent=1, ensure_ascii=False)
+    if out == text:
+        out = " " + out
+    return out if json.loads(out) == json.loads(text) and out != text else None
 
 
 def other_json_schema(s):
@@ -1732,6 +1754,45 @@ def perturb(kind, b, m, rng):
             return None
         b.reference_sequence.metadata_schema = other_json_schema(s)
         return True
+    if kind == "ts_metadata_respelled":
+        if not m.metadata_schema or json.loads(m.metadata_schema).get("codec") != "json" or not m.metadata:
+            return None
+        raw = respell_json(bytes(b.metadata_bytes).decode())
+        if raw is None:
+            return None
+        b._ll_tables.metadata = raw.encode()
+        return True
+    if kind == "ts_schema_respelled":
+        raw = respell_json(m.metadata_schema) if m.metadata_schema else None
+        if raw is None:
+            return None
+        b._ll_tables.metadata_schema = raw
+        return True
+    if kind == "refseq_metadata_respelled":
+        if not m.refseq or not m.refseq["metadata_schema"] or not m.refseq["metadata"] or \
+                json.loads(m.refseq["metadata_schema"]).get("codec") != "json":
+            return None
+        raw = respell_json(bytes(b.reference_sequence.metadata_bytes).decode())
+        if raw is None:
+            return None
+        b.reference_sequence._ll_reference_sequence.metadata = raw.encode()
+        return True
+    if kind == "refseq_schema_respelled":
+        raw = respell_json(m.refseq["metadata_schema"]) if m.refseq and m.refseq["metadata_schema"] else None
+        if raw is None:
+            return None
+        b.reference_sequence._ll_reference_sequence.metadata_schema = raw
+        return True
+    if kind == "table_schema_respelled":
+        cands = [n for n in META_TABLES if m.schemas.get(n)]
+        if not cands:
+            return None
+        name = rng.choice(cands)
+        raw = respell_json(m.schemas[name])
+        if raw is None:
+            return None
+        getattr(b, name).ll_table.metadata_schema = raw
+        return name
     if kind == "time_units":
         b.time_units = m.time_units + "s"
         return True
@@ -1818,7 +1879,7 @@ def check_tables_pair(ctx, a, b, kind, touched):
         for oname, oval in opts:
             if name != touched:
                 want = True
-            elif kind in ("row_metadata", "table_schema"):
+            elif kind in ("row_metadata", "table_schema", "table_schema_respelled"):
                 want = oval
             elif kind == "prov_timestamp":
                 want = oval
@@ -1883,12 +1944,16 @@ def run_equality(case, ctx, rng, tmp):
         ctx.count("eq-operator")
         if (a == b) is not predict((kind,), ()):
             ctx.violation(f"eq-operator/{kind}", f"a == b is {a == b} with b perturbed in {kind}")
-        if kind in ("row_metadata", "table_schema", "prov_record", "prov_timestamp", "table_data", "table_float_bits"):
+        if kind in ("row_metadata", "table_schema", "table_schema_respelled", "prov_record", "prov_timestamp", "table_data",
+                    "table_float_bits"):
             check_tables_pair(ctx, a, b, kind, touched)
-        if kind.startswith("refseq_"):
+        # (ReferenceSequence.equals is implemented in Python on the decoded metadata and the parsed schema: another
+        # spelling of the same value compares equal there, which the docs do not exclude - EITHER, not asserted)
+        if kind.startswith("refseq_") and not kind.endswith("_respelled"):
             for ign in (False, True):
                 ctx.count("refseq-equals")
-                want = ign and kind in ("refseq_metadata", "refseq_schema")
+                want = ign and kind in ("refseq_metadata", "refseq_schema", "refseq_metadata_respelled",
+                                        "refseq_schema_respelled")
                 got = a.reference_sequence.equals(b.reference_sequence, ignore_metadata=ign)
                 if got is not want:
                     ctx.violation(f"refseq-equals/{kind}/ignore_metadata={ign}",
@@ -1921,7 +1986,9 @@ def run_equality(case, ctx, rng, tmp):
         # the second perturbation reads current values from the model; keep them independent
         if {k1, k2} <= {"row_metadata", "table_schema", "table_data", "table_float_bits"} or \
                 {k1, k2} <= {"prov_record", "prov_timestamp"} or \
-                {k1, k2} <= {"ts_metadata", "ts_schema"} or {k1, k2} <= {"refseq_metadata", "refseq_schema"}:
+                {k1, k2} <= {"ts_metadata", "ts_schema", "ts_metadata_respelled", "ts_schema_respelled"} or \
+                {k1, k2} <= {"refseq_metadata", "refseq_schema", "refseq_metadata_respelled", "refseq_schema_respelled"} or \
+                "table_schema_respelled" in (k1, k2):
             continue
         t2 = perturb(k2, b, m, rng)
         if t2 is None:
